@@ -46,6 +46,27 @@ theorem leftover_choice (size : Nat) (h : 16 ≤ size) :
     have : slotSize (8 - 1) = 2048 := by decide
     omega
 
+/-- finite core of "the size class is large enough" -/
+theorem slot_fits_small : ∀ y, y < 2048 → y + 1 ≤ slotSize (bitLen (y ||| 15) - 4) := by
+  decide +kernel
+
+/-- `_get_reusable_slot_index`: a request that selects a size class fits into it -/
+theorem slotIndex_fits (size : Nat) (h0 : 0 < size) (hlt : size < u64) (h : slotIndex size < 8) :
+    size ≤ slotSize (slotIndex size) := by
+  have e : (size + u64 - 1) % u64 = size - 1 := by
+    have : size + u64 - 1 = (size - 1) + u64 := by omega
+    rw [this, Nat.add_mod_right]; exact Nat.mod_eq_of_lt (by omega)
+  unfold slotIndex at h ⊢
+  rw [e] at h ⊢
+  have hm : 15 ≤ (size - 1) ||| 15 := Nat.right_le_or
+  have hne : ((size - 1) ||| 15) ≠ 0 := by omega
+  have hy : size - 1 ≤ (size - 1) ||| 15 := Nat.left_le_or
+  have hb : ((size - 1) ||| 15).log2 < 11 := by
+    unfold bitLen at h; rw [if_neg hne] at h; omega
+  have := (Nat.log2_lt hne).1 hb
+  have := slot_fits_small (size - 1) (by omega)
+  omega
+
 /-! ### Items owned by the free lists -/
 
 def slotItemsFrom : Nat → List (List Loc) → List Item
